@@ -322,6 +322,15 @@ func checkMain(repo, verif string, args []string) int {
 	return 0
 }
 
+func hasPreempt(ev []symx.SchedEvent) bool {
+	for _, e := range ev {
+		if e.Kind == "preempt" {
+			return true
+		}
+	}
+	return false
+}
+
 func sumInstrs(rs []runReport) int {
 	n := 0
 	for _, r := range rs {
@@ -419,7 +428,7 @@ func replayNative(repo, verif, replayPath string) (bool, string) {
 	}
 	gen("api_native.go.tmpl", "api_native.go")
 	gen("replay_test.go.tmpl", "replay_test.go", "ENTRY", d.Entry)
-	if len(d.Sched) > 0 {
+	if hasPreempt(d.Sched) {
 		if err := instrumentSchedule(repo, tmp, &d, ov); err != nil {
 			return false, "cannot instrument schedule: " + err.Error()
 		}
